@@ -396,12 +396,13 @@ theorem bucket_not_addr (key : Bytes) : ¬ IsAddr cache (bucketPath cfg cache ke
 /-- Index insertion never touches a content file: the store stays valid at every kill point and
 under every fault. -/
 theorem insert_wp (key : Bytes) (o : WriteOpts) {fs : FS} (hq : ContentValid cfg cache fs) :
-    wpD env (ContentValid cfg cache) (fun _ _ => True) (insert cfg cache key o) fs := by
+    wpD env (ContentValid cfg cache) (fun r _ => ∀ s, r = Except.ok s → s = o.sri.getD defaultSri)
+      (insert cfg cache key o) fs := by
   unfold insert getTime appendRec
   simp only [bind_eq, pure_eq, call, bind_sys, bind_done]
   have hb := bucket_not_addr cfg cache key
   have tail : ∀ fsx (r : Rec), ContentValid cfg cache fsx →
-      wpD env (ContentValid cfg cache) (fun _ _ => True)
+      wpD env (ContentValid cfg cache) (fun r _ => ∀ s, r = Except.ok s → s = o.sri.getD defaultSri)
         (.sys (.openAppend (bucketPath cfg cache key)) (fun r1 =>
           Prog.bind (match r1 with
             | .err e => .done (Except.error (Err.io e))
@@ -419,19 +420,19 @@ theorem insert_wp (key : Bytes) (o : WriteOpts) {fs : FS} (hq : ContentValid cfg
       subst hq'; exact hb
     intro fs1 r1 _ hv1
     split
-    · exact wpD_done cfg env cache hv1 trivial
+    · exact wpD_done cfg env cache hv1 (fun s h => by first | cases h | (cases h; rfl))
     · simp only [bind_sys]
       apply wpD_safe cfg env cache hv1
       · intro q hq'
         simp only [Call.fileTargets, List.mem_singleton] at hq'
         subst hq'; exact hb
       intro fs2 r2 _ hv2
-      split <;> exact wpD_done cfg env cache hv2 trivial
+      split <;> exact wpD_done cfg env cache hv2 (fun s h => by first | (cases h; rfl) | cases h)
   apply wpD_safe cfg env cache hq
   · intro q hq'; simp [Call.fileTargets] at hq'
   intro fs1 r1 _ hv1
   split
-  · exact wpD_done cfg env cache hv1 trivial
+  · exact wpD_done cfg env cache hv1 (fun s h => by first | cases h | (cases h; rfl))
   · split
     · simp only [bind_done]
       exact tail fs1 _ hv1
@@ -442,75 +443,5 @@ theorem insert_wp (key : Bytes) (o : WriteOpts) {fs : FS} (hq : ContentValid cfg
       split
       · simp only [bind_done]; exact tail fs2 _ hv2
       · simp only [bind_done]; exact tail fs2 _ hv2
-
-theorem wcommit_wp (w : Writer) {fs : FS} (hc : w.cache = cache)
-    (hq : ContentValid cfg cache fs) (hi : WInv w fs) :
-    wpD env (ContentValid cfg cache) (fun _ _ => True) (wcommit cfg w) fs := by
-  unfold wcommit wcommitCheck
-  simp only [bind_eq, pure_eq]
-  apply wpD_bind
-  apply wpD_bind
-  refine wpD_mono ?_ (wpD_withQ (wclose_wp cfg env cache w hc hq hi))
-  intro r fs1 ⟨hv1, _⟩
-  have hidx : ∀ wsri recorded, wpD env (ContentValid cfg cache) (fun _ _ => True)
-      (wcommitIndex cfg w wsri recorded) fs1 := by
-    intro wsri recorded
-    unfold wcommitIndex
-    split
-    · rw [hc]; exact insert_wp cfg env cache _ _ hv1
-    · exact wpD_done cfg env cache hv1 trivial
-  split
-  · exact wpD_done cfg env cache hv1 (wpD_done cfg env cache hv1 trivial)
-  · split
-    · exact wpD_done cfg env cache hv1 (wpD_done cfg env cache hv1 trivial)
-    · exact wpD_done cfg env cache hv1 (hidx _ _)
-
-/-- A whole streamed write: open with any options, feed any chunks, commit (or clean up after a
-failed chunk). -/
-def writeStream (fl : Flavour) (key : Option Bytes) (o : WriteOpts) (chunks : List Bytes) :
-    Prog (Res Integrity) := do
-  match ← wopen cfg fl cache key o with
-  | .error e => pure (.error e)
-  | .ok w =>
-    match ← wwriteAll w chunks with
-    | .error e => do dropTmp w.tmp; pure (.error (.io e))
-    | .ok w' => wcommit cfg w'
-
-theorem writeStream_wp (fl : Flavour) (key : Option Bytes) (o : WriteOpts) (chunks : List Bytes)
-    {fs : FS} (hq : ContentValid cfg cache fs) :
-    wpD env (ContentValid cfg cache) (fun _ _ => True) (writeStream cfg cache fl key o chunks) fs := by
-  unfold writeStream
-  simp only [bind_eq, pure_eq]
-  apply wpD_bind
-  refine wpD_mono ?_ (wpD_withQ (wopen_wp cfg env cache fl key o hq))
-  intro r fs1 ⟨hv1, hp⟩
-  split
-  · exact wpD_done cfg env cache hv1 trivial
-  · rename_i w
-    obtain ⟨hc, _, _, _, _, _, hi⟩ := hp w rfl
-    apply wpD_bind
-    refine wpD_mono ?_ (wpD_withQ (wwriteAll_wp cfg env cache w chunks hc hv1 hi))
-    intro r2 fs2 ⟨hv2, hp2⟩
-    split
-    · apply wpD_bind
-      refine wpD_mono ?_ (dropTmp_wp cfg env cache _ hv2)
-      intro _ fs3 hv3
-      exact wpD_done cfg env cache hv3 trivial
-    · rename_i w'
-      obtain ⟨hs, hi', _⟩ := hp2 w' rfl
-      exact wcommit_wp cfg env cache w' (hs.1.trans hc) hv2 hi'
-
-theorem write_eq_stream (fl : Flavour) (algo : Algo) (key data : Bytes) :
-    write cfg fl cache algo key data =
-      writeStream cfg cache fl (some key)
-        (match fl with
-          | .async => { algo := some algo, size := some data.length }
-          | .sync => { algo := some algo }) [data] := by
-  unfold write writeStream; rfl
-
-theorem writeHash_eq_stream (fl : Flavour) (algo : Algo) (data : Bytes) :
-    writeHash cfg fl cache algo data =
-      writeStream cfg cache fl none { algo := some algo, size := some data.length } [data] := by
-  unfold writeHash writeStream; rfl
 
 end Cacache
